@@ -937,7 +937,27 @@ impl<'de> Deserialize<'de> for CompoundType {
     where
         D: Deserializer<'de>,
     {
-        Type::deserialize(deserializer).map(Self::from)
+        use serde::de::Error;
+
+        // A type nested deeper than a `CompoundType` can hold is an error of
+        // the input, not a reason to panic.
+        Type::deserialize(deserializer)?
+            .checked_into_compound()
+            .ok_or_else(|| D::Error::custom("type is nested too deeply"))
+    }
+}
+
+impl Type {
+    #[inline]
+    const fn checked_into_compound(self) -> Option<CompoundType> {
+        match self {
+            Type::Bool => Some(CompoundType::new(PrimitiveType::Bool)),
+            Type::Bytes => Some(CompoundType::new(PrimitiveType::Bytes)),
+            Type::Int => Some(CompoundType::new(PrimitiveType::Int)),
+            Type::Ip => Some(CompoundType::new(PrimitiveType::Ip)),
+            Type::Array(ty) => ty.push(Layer::Array),
+            Type::Map(ty) => ty.push(Layer::Map),
+        }
     }
 }
 
@@ -954,14 +974,7 @@ impl CompoundType {
     /// Converts a [`Type`] into a [`CompoundType`].
     #[inline]
     pub const fn from_type(ty: Type) -> Self {
-        match match ty {
-            Type::Bool => Some(Self::new(PrimitiveType::Bool)),
-            Type::Bytes => Some(Self::new(PrimitiveType::Bytes)),
-            Type::Int => Some(Self::new(PrimitiveType::Int)),
-            Type::Ip => Some(Self::new(PrimitiveType::Ip)),
-            Type::Array(ty) => ty.push(Layer::Array),
-            Type::Map(ty) => ty.push(Layer::Map),
-        } {
+        match ty.checked_into_compound() {
             Some(ty) => ty,
             None => panic!("Could not convert type to compound type"),
         }
